@@ -1,3 +1,4 @@
+import os
 """Per-property specification of the checks: which harness crates ("units"), which harness files,
 and the text that goes into the evidence (claim, bounds, assumptions, stubs, what is outside)."""
 
@@ -14,7 +15,65 @@ VINTERNER_TB = [
     "is verified; static typed arenas, structural equality",
 ]
 
+def ir_unit(*files):
+    return dict(IR_UNIT, files=list(files),
+                modules={f: os.path.splitext(os.path.basename(f))[0].replace("_classes", "") for f in files})
+
+
 PROPS = {
+    "C25": {
+        "units": [ir_unit("harness/ir/src/c25.rs", "harness/ir/src/c25_classes.rs")],
+        "claim": "For every term of each class (7 type skeletons incl. function-pointer and trait-object binders, "
+                 "3 goal skeletons incl. a quantified goal, 1 program clause; type / lifetime / const variable leaves "
+                 "at de Bruijn depths 0..2): shifting in by k and back out is the identity; shifted_out_to(k) fails "
+                 "exactly when a variable is bound within the k innermost binders and otherwise inverts shifted_in_from; "
+                 "substituting a binder's own variables is the identity; substitution commutes with shifting; folding "
+                 "with a folder that has only default methods returns an equal term; DebruijnIndex / BoundVar arithmetic "
+                 "obeys the same laws at full 32-bit width. Code: Shifter, DownShifter, Subst::apply, Binders::substitute, "
+                 "Binders::identity_substitution, the derived and hand-written TypeFoldable impls they drive.",
+        "bounds": "class-partitioned: skeleton (depth <= 3 constructors), variable depths in {0,1,2}, shift amount k in "
+                  "{1,2} fixed per query; symbolic inside a query: every index within a binder (full usize), ids, "
+                  "mutabilities, scalars, ABI/safety/variadic, clause priority; unwind 8 with unwinding assertions",
+        "outside": "deeper or wider terms; depth and shift amount as symbolic values (probe P28 does not finish); "
+                   "goals of the form T: Trait (DomainGoal::Holds is opaque to CBMC's constant propagation, vinterner "
+                   "layout notes) - WellFormed(T: Trait) goals and clause heads stand in for them; Implies goals",
+        "assumptions": ["const types are closed (chalk's shifters rely on it and say so)",
+                        "no de Bruijn overflow (d + k <= u32::MAX) in the arithmetic harness"],
+        "stubs": [],
+        "trusted_base": VINTERNER_TB,
+        "harness_note_default": "one class of terms; algebraic law asserted for all indices / ids of the class",
+        "level_text": "Bounded model checking (Kani/CBMC) of the real folding code per class of terms: the control "
+                      "skeleton is fixed per query, everything else is decided by the solver at full machine width; "
+                      "all classes of the stated bound are run in the thorough tier, a spread of them in the quick tier.",
+        "level_note": "Trusted: Kani/CBMC; VInterner (structural equality of interned terms). The laws themselves are the "
+                      "property statement; no reference implementation is involved.",
+        "design_ref": "DESIGN.md §4.6",
+        "timeout_quick_s": 300, "timeout_thorough_s": 300,
+    },
+    "C26": {
+        "units": [ir_unit("harness/ir/src/c26.rs")],
+        "claim": "For each of the 23 TyKind constructors applied to opaque children carrying ARBITRARY 16-bit flag "
+                 "words, to a lifetime of any kind and to a constant of any kind, the flags stored by intern_ty "
+                 "(TyKind::compute_flags and the helpers for substitutions, generic args, lifetimes, aliases, "
+                 "trait-object bounds) equal own(K) | union of the children's flags on all occurrence bits. With "
+                 "the leaf cases this is exactness of the occurrence flags for types of every depth.",
+        "bounds": "one constructor application; argument lists [ty, lifetime, const, ty]; trait objects with one "
+                  "Implemented bound, and with all four where-clause kinds at once; child flag words: all 2^16 values "
+                  "each; lifetime / const kinds and payloads symbolic; unwind 8 with unwinding assertions",
+        "outside": "argument lists longer than 4; STILL_FURTHER_SPECIALIZABLE (excluded by the property); whether "
+                   "TyKind::OpaqueType / AssociatedType count as opaque / projection occurrences (property silent, not asserted)",
+        "assumptions": ["children's stored flag words are taken as given (induction hypothesis: arbitrary)"],
+        "stubs": [],
+        "trusted_base": VINTERNER_TB,
+        "harness_note_default": "flags(K(children)) == own(K) | flags(children) on occurrence bits; children flag words symbolic",
+        "level_text": "Bounded model checking (Kani/CBMC) of the real compute_flags code, one structural step per "
+                      "constructor with the children's flag words left completely free, so that each query covers that "
+                      "constructor at every depth; the solver decides all 2^16 flag words per child, every lifetime and "
+                      "constant kind.",
+        "level_note": "Trusted: Kani/CBMC; VInterner; the occurrence table (own flags per constructor, lifetime and "
+                      "constant contributions) written from the property statement and the flag documentation.",
+        "design_ref": "DESIGN.md §4.2",
+    },
     "C18": {
         "units": [dict(IR_UNIT, files=["harness/ir/src/c18.rs"], modules={"harness/ir/src/c18.rs": "c18"})],
         "claim": "For every pair of types of the stated shapes, `could_match` (chalk-ir/src/could_match.rs, "
